@@ -31,7 +31,14 @@ pub enum Output {
 #[derive(Clone, Debug, Serialize, Deserialize, PartialEq)]
 pub enum TimeSource {
     /// --time-limited-current given in this zone; the simulated clock holds a decoy
-    Explicit { zone_off: i64, zulu: bool, decoy: ClockSpec },
+    Explicit {
+        zone_off: i64,
+        zulu: bool,
+        decoy: ClockSpec,
+        /// relaxed spellings of the instant (see reftime::format_time_spelled)
+        #[serde(default)]
+        spelling: u8,
+    },
     /// option omitted; the frozen simulated clock holds the instant
     Clock,
 }
@@ -125,6 +132,7 @@ fn gen_variant(rng: &mut Rng, scn_targets: usize, doc: &Doc, mode: Mode) -> Vari
             zone_off,
             zulu: rng.chance(1, 2),
             decoy: ClockSpec { sec: *rng.pick(&[0i64, 946_684_800, 4_102_444_800, 253_402_300_799]), nsec: rng.range(0, 999_999_999), tick_ns: 0 },
+            spelling: if rng.chance(1, 3) { rng.below(8) as u8 } else { 0 },
         }
     } else {
         TimeSource::Clock
@@ -226,6 +234,7 @@ pub fn generate(seed: u64) -> C20Scn {
         tos: &tos,
         names: &names,
         allow_unwrap: true,
+        allow_wrapper_layouts: true,
         allow_inline: true,
         allow_multiline_tag: true,
         allow_other: true,
@@ -359,8 +368,8 @@ pub fn build_exec(scn: &C20Scn, v: &Variant, text: &str) -> (Fs, Exec, Option<St
         }
     }
     let clock = match &v.time {
-        TimeSource::Explicit { zone_off, zulu, decoy } => {
-            opts.push(("--time-limited-current".into(), Some(reftime::format_rfc3339(scn.now.0, scn.now.1, *zone_off, *zulu))));
+        TimeSource::Explicit { zone_off, zulu, decoy, spelling } => {
+            opts.push(("--time-limited-current".into(), Some(reftime::format_time_spelled(scn.now.0, scn.now.1, *zone_off, *zulu, *spelling))));
             decoy.clone()
         }
         TimeSource::Clock => ClockSpec { sec: scn.now.0, nsec: scn.now.1, tick_ns: 0 },
@@ -678,7 +687,7 @@ pub fn shrink_candidates(s: &C20Scn) -> Vec<C20Scn> {
         push(nv);
         if let TimeSource::Explicit { decoy, .. } = &v.time {
             let mut nv = v.clone();
-            nv.time = TimeSource::Explicit { zone_off: 0, zulu: true, decoy: decoy.clone() };
+            nv.time = TimeSource::Explicit { zone_off: 0, zulu: true, decoy: decoy.clone(), spelling: 0 };
             push(nv);
         }
         let mut nv = v.clone();
